@@ -92,6 +92,18 @@ class NArr:
         return [NArr(self.shape[1:], self.data[i * stride:(i + 1) * stride]) for i in range(self.shape[0])]
 
 
+class SMat:
+    """float matrix with a concrete number of rows and a symbolic number of columns;
+    comps[r] is a z3 array Int -> Real holding row r"""
+    __slots__ = ("rows", "ncols", "comps")
+
+    def __init__(self, rows, ncols, comps):
+        self.rows, self.ncols, self.comps = rows, ncols, list(comps)
+
+    def __repr__(self):
+        return f"SMat({self.rows} x {self.ncols})"
+
+
 class SList:
     """list of symbolic length: elements of descriptor type `t`, length term `n`,
     one z3 array Int->sort per flattened component of t"""
@@ -298,6 +310,28 @@ class TVec(T):
 
     def unflat(self, terms):
         return NArr(self.shape, terms)
+
+
+class TMat(T):
+    def __init__(self, rows):
+        self.rows = rows
+
+    def __repr__(self):
+        return f"TMat({self.rows},n)"
+
+    def sorts(self):
+        return [z3.IntSort()] + [z3.ArraySort(z3.IntSort(), z3.RealSort())] * self.rows
+
+    def flat(self, v):
+        if not isinstance(v, SMat) or v.rows != self.rows:
+            raise Unsupported(f"expected {self.rows}-row matrix, got {v!r}")
+        return [I(v.ncols)] + list(v.comps)
+
+    def unflat(self, terms):
+        return SMat(self.rows, terms[0], terms[1:])
+
+    def wf(self, v):
+        return [v.ncols >= 0]
 
 
 class TList(T):
